@@ -24,6 +24,7 @@ func init() {
 }
 
 func runC10(c *Ctx) {
+	defer c.shared("R5", "C04/R5", "the -o file depends on this run only: it is opened truncating, so nothing an earlier run wrote survives behind the new JSON", keyHas("json-file-truncated"), func(s *Ctx) { jsonTextAsData(s, "R5") })
 	mapRangeOrder(c, "R1")
 	c10R2(c)
 	receiverPerCall(c, "R3")
